@@ -61,6 +61,10 @@ Proof.
   - split; [exact Hok2|]. split; [congruence|]. rewrite app_length. lia.
 Qed.
 
+Ltac alloc_failed_tac :=
+  match goal with H : ?f ?n = false |- exists _, ?f _ = false => exists n; exact H end.
+Ltac prov_enomem := left; split; [reflexivity | alloc_failed_tac].
+
 Local Arguments Nat.eqb : simpl never.
 Local Arguments Nat.ltb : simpl never.
 Local Arguments Z.eqb : simpl never.
@@ -83,7 +87,7 @@ Section Conn.
     exists st oci ch1 h1, open_connection f E ch tcp att h = Ok ((st, oci, ch1), h1) /\ heap_ok h1 /\
       h_next h <= h_next h1 /\
       ch_all ch1 = ch_all ch /\ ch_byqid ch1 = ch_byqid ch /\ ch_bytmo ch1 = ch_bytmo ch /\
-      ((oci = None /\ st <> ARES_SUCCESS /\ (st = ARES_ENOMEM \/ st = e_sock E att) /\
+      ((oci = None /\ st <> ARES_SUCCESS /\ ((st = ARES_ENOMEM /\ exists n, f n = false) \/ st = e_sock E att) /\
         ch_conns ch1 = ch_conns ch /\ h_live h1 = h_live h) \/
        (exists c, oci = Some (if tcp then length (ch_conns ch) else 0) /\ st = ARES_SUCCESS /\
                   cn_queries c = [] /\
@@ -94,12 +98,12 @@ Section Conn.
     remember (open_connection f E ch tcp att h) as R eqn:HR.
     unfold open_connection, group, open_conn_undo in HR.
     set (n0 := h_next h) in *.
-    assert (Hfail : forall n st, n0 <= n -> st <> ARES_SUCCESS -> (st = ARES_ENOMEM \/ st = e_sock E att) ->
+    assert (Hfail : forall n st, n0 <= n -> st <> ARES_SUCCESS -> ((st = ARES_ENOMEM /\ exists n, f n = false) \/ st = e_sock E att) ->
               R = Ok (st, None, mkChan (ch_all ch) (ch_byqid ch) (ch_bytmo ch) (ch_conns ch) (ch_closed ch), mkHeap n (h_live h)) \/
               R = Ok (st, None, mkChan (ch_all ch) (ch_byqid ch) (ch_bytmo ch) (ch_conns ch) (S (ch_closed ch)), mkHeap n (h_live h)) ->
               exists st oci ch1 h1, R = Ok ((st, oci, ch1), h1) /\ heap_ok h1 /\ n0 <= h_next h1 /\
                 ch_all ch1 = ch_all ch /\ ch_byqid ch1 = ch_byqid ch /\ ch_bytmo ch1 = ch_bytmo ch /\
-                ((oci = None /\ st <> ARES_SUCCESS /\ (st = ARES_ENOMEM \/ st = e_sock E att) /\
+                ((oci = None /\ st <> ARES_SUCCESS /\ ((st = ARES_ENOMEM /\ exists n, f n = false) \/ st = e_sock E att) /\
                   ch_conns ch1 = ch_conns ch /\ h_live h1 = h_live h) \/
                  (exists c, oci = Some (if tcp then length (ch_conns ch) else 0) /\ st = ARES_SUCCESS /\
                             cn_queries c = [] /\
@@ -110,11 +114,11 @@ Section Conn.
         simpl; (split; [exact Hn|]); repeat split; auto; left; repeat split; auto. }
     assert (Hnm : ARES_ENOMEM <> ARES_SUCCESS) by discriminate.
     step_malloc_in HR.
-    2:{ unfold ret in HR. eapply (Hfail (S n0) ARES_ENOMEM); [lia | exact Hnm | left; reflexivity|]. left.
+    2:{ unfold ret in HR. eapply (Hfail (S n0) ARES_ENOMEM); [lia | exact Hnm | prov_enomem|]. left.
         rewrite HR. destruct ch; reflexivity. }
     step_malloc_in HR; step_malloc_in HR; step_malloc_in HR.
     2-8: (unfold bindM at 1 in HR; step_undo_in HR (h_live h); unfold ret in HR; cbv beta iota in HR;
-          eapply (Hfail (S (S (S (S n0)))) ARES_ENOMEM); [lia | exact Hnm | left; reflexivity|]; left; exact HR).
+          eapply (Hfail (S (S (S (S n0)))) ARES_ENOMEM); [lia | exact Hnm | prov_enomem|]; left; exact HR).
     destruct (Z.eqb (e_sock E att) ARES_SUCCESS) eqn:Es; cbn [negb] in HR; cbv iota in HR.
     2:{ unfold bindM at 1 in HR; step_undo_in HR (h_live h); unfold ret in HR; cbv beta iota in HR.
         assert (Hne : e_sock E att <> ARES_SUCCESS) by (intros Heq; rewrite Heq in Es; discriminate).
@@ -122,10 +126,10 @@ Section Conn.
         destruct (negb (Z.eqb (e_sock E att) ARES_EBADFAMILY)); [right | left]; exact HR. }
     step_malloc_in HR.
     2:{ unfold bindM at 1 in HR; step_undo_in HR (h_live h); unfold ret in HR; cbv beta iota in HR.
-        eapply (Hfail (S (S (S (S (S n0))))) ARES_ENOMEM); [lia | exact Hnm | left; reflexivity|]. right. exact HR. }
+        eapply (Hfail (S (S (S (S (S n0))))) ARES_ENOMEM); [lia | exact Hnm | prov_enomem|]. right. exact HR. }
     step_malloc_in HR.
     2:{ unfold bindM at 1 in HR; step_undo_in HR (h_live h); unfold ret in HR; cbv beta iota in HR.
-        eapply (Hfail (S (S (S (S (S (S n0)))))) ARES_ENOMEM); [lia | exact Hnm | left; reflexivity|]. right. exact HR. }
+        eapply (Hfail (S (S (S (S (S (S n0)))))) ARES_ENOMEM); [lia | exact Hnm | prov_enomem|]. right. exact HR. }
     unfold ret in HR. rewrite HR.
     eexists; eexists; eexists; eexists. split; [reflexivity|].
     split.
@@ -173,7 +177,8 @@ Section SendQuery.
   (* where a failure status can come from *)
   Definition ext_status (st : Z) : Prop := (exists att, st = e_sock E att) \/ (exists att, st = e_write E att).
   Definition prov (st : Z) : Prop :=
-    st = ARES_ENOMEM \/ (st = ARES_ENOSERVER /\ exists att, e_server E att = false) \/ ext_status st.
+    (st = ARES_ENOMEM /\ exists n, f n = false) \/
+    (st = ARES_ENOSERVER /\ exists att, e_server E att = false) \/ ext_status st.
 
   Definition sq_pre (ch : chan) (q : query) (h : heap) : Prop :=
     heap_ok h /\ q_inv q h /\ q_tmo q = None /\ q_cqn q = None /\
@@ -362,7 +367,6 @@ Section SendQuery.
     remember (send_query_step f E resend ch q cbs h) as R eqn:HR.
     unfold send_query_step in HR.
     assert (HnmS : ARES_ENOMEM <> ARES_SUCCESS) by discriminate.
-    assert (HpvM : prov ARES_ENOMEM) by (left; reflexivity).
     destruct (e_server E (q_try q)) eqn:Esrv; cbn [negb] in HR; cbv iota in HR.
     2:{ assert (HpvS : prov ARES_ENOSERVER) by (right; left; split; [reflexivity | exists (q_try q); exact Esrv]).
         destruct (ended_post ch q cbs h ch q ARES_ENOSERVER h) as (r & h' & Hrun & _ & _ & Hpost); side.
@@ -378,7 +382,7 @@ Section SendQuery.
               (forall c, In c (ch_conns ch1) -> In c (ch_conns ch) \/ cn_queries c = []) /\
               length (h_live h1) + 6 * length (ch_conns ch) = length (h_live h) + 6 * length (ch_conns ch1) /\
               (forall x, In x (h_live h) -> In x (h_live h1)) /\
-              ((oci = None /\ ost <> ARES_SUCCESS /\ (ost = ARES_ENOMEM \/ ost = e_sock E (q_try q))) \/
+              ((oci = None /\ ost <> ARES_SUCCESS /\ ((ost = ARES_ENOMEM /\ exists n, f n = false) \/ ost = e_sock E (q_try q))) \/
                (exists ci, oci = Some ci /\ ci < length (ch_conns ch1)))).
     { destruct (e_reuse E (q_try q)) as [i|] eqn:Er.
       - exists ARES_SUCCESS, (Some i), ch, h. unfold ret. split; [reflexivity|].
@@ -412,10 +416,10 @@ Section SendQuery.
     destruct Hcase1 as [(Ho & Host & Hopv) | (ci & Ho & Hci)]; subst oci.
     - (* no connection *)
       assert (Hpvo : prov ost).
-      { destruct Hopv as [->| ->]; [exact HpvM | right; right; left; exists (q_try q); reflexivity]. }
+      { destruct Hopv as [[-> Haf]| ->]; [left; split; [reflexivity | exact Haf] | right; right; left; exists (q_try q); reflexivity]. }
       destruct (Z.eqb ost ARES_ECONNREFUSED || Z.eqb ost ARES_EBADFAMILY) eqn:Eor.
       + assert (Hexo : ext_status ost).
-        { destruct Hopv as [->| ->]; [discriminate Eor | left; exists (q_try q); reflexivity]. }
+        { destruct Hopv as [[-> _]| ->]; [discriminate Eor | left; exists (q_try q); reflexivity]. }
         destruct (requeue_spec resend ch1 q cbs h1 ost Hres Hpre1 Host Hexo) as (r & h' & Hrun & Hpost).
         exists r, h'. split; [rewrite HR; exact Hrun|]. eapply sq_post_lift; eauto.
       + destruct (ended_post ch1 q cbs h1 ch1 q ost h1) as (r & h' & Hrun & _ & _ & Hpost); side.
@@ -424,6 +428,7 @@ Section SendQuery.
       unfold group in HR.
       step_malloc_in HR.
       2:{ (* the writer could not get its memory *)
+          assert (HpvM : prov ARES_ENOMEM) by prov_enomem.
           destruct (ended_post ch1 q cbs h1 ch1 q ARES_ENOMEM (mkHeap (S (h_next h1)) (h_live h1)))
             as (r & h' & Hrun & _ & _ & Hpost); side.
           exists r, h'. split; [rewrite HR; exact Hrun|]. eapply sq_post_lift; eauto. }
@@ -440,7 +445,8 @@ Section SendQuery.
         destruct Hp as (A & B & Hp). split; [exact A|]. split; [lia | exact Hp]. }
       destruct (Hwrite (q_try q)) as [Hw1 Hw2].
       destruct (Z.eqb_spec (e_write E (q_try q)) ARES_ENOMEM) as [Ewm|Ewm].
-      { destruct (ended_post ch1 q cbs h2 ch1 q ARES_ENOMEM h2) as (r & h' & Hrun & _ & _ & Hpost); side.
+      { assert (HpvM : prov ARES_ENOMEM) by (right; right; right; exists (q_try q); symmetry; exact Ewm).
+        destruct (ended_post ch1 q cbs h2 ch1 q ARES_ENOMEM h2) as (r & h' & Hrun & _ & _ & Hpost); side.
         exists r, h'. split; [rewrite HR; exact Hrun | auto]. }
       destruct (Z.eqb_spec (e_write E (q_try q)) ARES_ECONNREFUSED) as [Ewr|_]; [contradiction|].
       destruct (Z.eqb_spec (e_write E (q_try q)) ARES_EBADFAMILY) as [Ewb|_]; [contradiction|].
@@ -453,7 +459,8 @@ Section SendQuery.
       rewrite Ht in HR. unfold free_opts at 1 in HR. cbn [cat_somes free_all] in HR.
       unfold bindM at 1 in HR. unfold ret at 1 in HR. cbv beta iota in HR.
       step_malloc_in HR.
-      2:{ set (h3 := mkHeap (S (h_next h2)) (h_live h2)) in *.
+      2:{ assert (HpvM : prov ARES_ENOMEM) by prov_enomem.
+          set (h3 := mkHeap (S (h_next h2)) (h_live h2)) in *.
           set (q1 := mkQuery (q_qid q) (q_blk q) (q_rec q) (q_name q) (q_all q) (q_qide q) None (q_cqn q)
                              (q_try q) (q_err q) (q_tcp q)) in *.
           assert (Hb1' : qblocks q1 = qblocks q) by (unfold qblocks, q1; cbn; rewrite Ht; reflexivity).
@@ -502,6 +509,7 @@ Section SendQuery.
           - exfalso. apply nth_error_None in En0. lia. }
         rewrite Hb2. unfold h2. cbn [length h_live]. lia.
       + (* the node for the connection's list could not be had *)
+        assert (HpvM : prov ARES_ENOMEM) by prov_enomem.
         unfold h3 in HR. cbn [h_next h_live] in HR.
         set (h4 := mkHeap (S (S tn)) (tn :: h_live h2)) in *.
         set (qx := mkQuery (q_qid q) (q_blk q) (q_rec q) (q_name q) (q_all q) (q_qide q) (Some tn) None
@@ -592,7 +600,6 @@ Section SendQuery.
   Proof.
     intros Hok (Hf1 & Hf2 & Hf3) Hnc.
     remember (send_nolock f E ch qid h) as R eqn:HR. unfold send_nolock in HR.
-    assert (HpvM : prov0 ARES_ENOMEM) by (left; left; reflexivity).
     assert (HnmS : ARES_ENOMEM = ARES_SUCCESS -> e_nocache E = false /\ e_cache E = ARES_SUCCESS /\ ARES_ENOMEM = ARES_SUCCESS)
       by (intros Hx; discriminate Hx).
     destruct (Nat.eqb_spec (e_nservers E) 0) as [Ens|Ens].
@@ -618,7 +625,7 @@ Section SendQuery.
           destruct (Z.eqb_spec (e_cache E) ARES_ENOTFOUND) as [Ec|Ec]; [left; exact Ec|].
           right. split; [right; right; left; auto | auto].
         + unfold ret. eexists; eexists. split; [reflexivity|]. split; [apply heap_ok_skip; exact Hok|].
-          split; [reflexivity|]. right. split; [exact HpvM | exact HnmS]. }
+          split; [reflexivity|]. right. split; [left; prov_enomem | exact HnmS]. }
     destruct Hcache as (c & h1 & Hrun1 & Hok1 & Hl1 & Hc).
     rewrite (bindM_ok _ _ _ _ _ Hrun1) in HR. cbv beta iota in HR.
     destruct (Z.eqb_spec c ARES_ENOTFOUND) as [Ec|Ec]; cbn [negb] in HR; cbv iota in HR.
@@ -634,10 +641,12 @@ Section SendQuery.
     set (n0 := h_next h) in *.
     unfold group in HR.
     step_malloc_in HR.
-    2:{ unfold ret in HR. eexists; eexists. split; [exact HR|].
+    2:{ assert (HpvM : prov0 ARES_ENOMEM) by (left; prov_enomem).
+        unfold ret in HR. eexists; eexists. split; [exact HR|].
         apply submit_post_ended; auto. apply heap_ok_skip. exact Hok. }
     step_malloc_in HR.
-    2:{ unfold bindM at 1 in HR. unfold free at 1 in HR. cbn [h_live h_next memb remove_one] in HR.
+    2:{ assert (HpvM : prov0 ARES_ENOMEM) by (left; prov_enomem).
+        unfold bindM at 1 in HR. unfold free at 1 in HR. cbn [h_live h_next memb remove_one] in HR.
         rewrite Nat.eqb_refl in HR. cbn [orb] in HR. cbv beta iota in HR. unfold ret in HR.
         eexists; eexists. split; [exact HR|].
         apply submit_post_ended; auto. apply (heap_ok_next h); [exact Hok | simpl; lia]. }
@@ -679,7 +688,8 @@ Section SendQuery.
           eexists; eexists; eexists. split; [reflexivity|].
           split; [apply (heap_ok_skip h2 Hok2)|]. split; [simpl; lia|]. right. right.
           repeat split; auto. right. right. right. right. auto.
-      - unfold ret. eexists; eexists; eexists. split; [reflexivity|].
+      - assert (HpvM : prov0 ARES_ENOMEM) by (left; prov_enomem).
+        unfold ret. eexists; eexists; eexists. split; [reflexivity|].
         split; [apply (heap_ok_skip h2 Hok2)|]. split; [simpl; lia|]. right. right.
         repeat split; auto. discriminate. }
     destruct H0x as (xst & xnm & h3 & Hrun3 & Hok3 & Hn3 & Hx).
@@ -713,7 +723,8 @@ Section SendQuery.
     clear Hx.
     (* all_queries *)
     step_malloc_in HR.
-    2:{ set (q2 := mkQuery qid n0 (Some (S n0)) xnm None None None None 0 ARES_SUCCESS (e_usevc E)) in *.
+    2:{ assert (HpvM : prov0 ARES_ENOMEM) by (left; prov_enomem).
+        set (q2 := mkQuery qid n0 (Some (S n0)) xnm None None None None 0 ARES_SUCCESS (e_usevc E)) in *.
         destruct (free_query_spec ch q2 (mkHeap (S (h_next h3)) (h_live h3))) as (h4 & Hr4 & Hok4 & Hn4 & Hl4).
         { apply heap_ok_skip. exact Hok3. }
         { split; [exact Hnd3 | exact Hin3]. }
@@ -733,7 +744,8 @@ Section SendQuery.
     { intros x [<-|Hx']; simpl; [left; reflexivity | right; apply Hin3; exact Hx']. }
     (* queries_by_qid *)
     step_malloc_in HR.
-    2:{ set (q3 := mkQuery qid n0 (Some (S n0)) xnm (Some an) None None None 0 ARES_SUCCESS (e_usevc E)) in *.
+    2:{ assert (HpvM : prov0 ARES_ENOMEM) by (left; prov_enomem).
+        set (q3 := mkQuery qid n0 (Some (S n0)) xnm (Some an) None None None 0 ARES_SUCCESS (e_usevc E)) in *.
         destruct (free_query_spec ch1 q3 (mkHeap (S (h_next h4)) (h_live h4))) as (h5 & Hr5 & Hok5 & Hn5 & Hl5).
         { apply heap_ok_skip. exact Hok4. }
         { split; [exact Hnd4 | exact Hin4]. }
@@ -788,3 +800,127 @@ Section SendQuery.
       split; [exact M3|]. split; [exact M4|]. split; [exact M5|]. lia.
   Qed.
 End SendQuery.
+
+(* ------------------------------------------------------------------------------------ *)
+(* the statements of C14 for the request-submission path                                 *)
+(* ------------------------------------------------------------------------------------ *)
+
+(* preconditions on the environment answers *)
+Definition env_modelled (E : env) (ch : chan) : Prop :=
+  (forall att i, e_reuse E att = Some i -> i < length (ch_conns ch)) /\
+  (forall att, e_write E att <> ARES_ECONNREFUSED /\ e_write E att <> ARES_EBADFAMILY).
+
+(* everything except the allocator answers "fine" *)
+Definition env_all_ok (E : env) : Prop :=
+  e_nservers E <> 0 /\ (e_nocache E = true \/ e_cache E = ARES_ENOTFOUND) /\ e_dup E = ARES_SUCCESS /\
+  e_0x20_status E = ARES_SUCCESS /\
+  (forall att, e_server E att = true /\ e_sock E att = ARES_SUCCESS /\ e_write E att = ARES_SUCCESS).
+
+(* for EVERY oracle: one callback and no trace, or no callback and fully registered *)
+Theorem send_exactly_once f E ch qid h :
+  heap_ok h -> fresh_qid ch qid -> env_modelled E ch ->
+  exists r h', send_nolock f E ch qid h = Ok (r, h') /\ submit_post f E ch qid h r h'.
+Proof.
+  intros Hok Hfr [Hre Hwr].
+  apply (send_nolock_spec f E (length (ch_conns ch)) Hre Hwr ch qid h Hok Hfr). lia.
+Qed.
+
+(* when only the allocator can fail: the request proceeds, or its callback gets ARES_ENOMEM
+   exactly once, the call returns ARES_ENOMEM, and a request was indeed refused *)
+Theorem send_single_failure f E ch qid h :
+  single_failure f -> env_all_ok E ->
+  heap_ok h -> fresh_qid ch qid -> env_modelled E ch ->
+  exists r h', send_nolock f E ch qid h = Ok (r, h') /\ heap_ok h' /\
+    ((exists q', r_query r = Some q' /\ r_cbs r = [] /\ r_status r = ARES_SUCCESS /\ q_qid q' = qid /\
+                 ch_all (r_chan r) = ch_all ch ++ [qid] /\ ch_byqid (r_chan r) = qid :: ch_byqid ch /\
+                 ch_bytmo (r_chan r) = qid :: ch_bytmo ch /\
+                 length (h_live h') + 6 * length (ch_conns ch)
+                   = length (h_live h) + length (qblocks q') + 6 * length (ch_conns (r_chan r)))
+     \/
+     (r_query r = None /\ r_cbs r = [ARES_ENOMEM] /\ r_status r = ARES_ENOMEM /\ (exists n, f n = false) /\
+      ch_all (r_chan r) = ch_all ch /\ ch_byqid (r_chan r) = ch_byqid ch /\ ch_bytmo (r_chan r) = ch_bytmo ch /\
+      (forall c, In c (ch_conns (r_chan r)) -> In c (ch_conns ch) \/ cn_queries c = []) /\
+      length (h_live h') + 6 * length (ch_conns ch) = length (h_live h) + 6 * length (ch_conns (r_chan r)))).
+Proof.
+  intros _ (Hns & Hca & Hdu & H20 & Hatt) Hok Hfr Hmod.
+  destruct (send_exactly_once f E ch qid h Hok Hfr Hmod) as (r & h' & Hrun & Hpost).
+  exists r, h'. split; [exact Hrun|]. unfold submit_post in Hpost.
+  destruct Hpost as (A & B & C & Hm). split; [exact A|].
+  destruct (r_query r) as [q'|].
+  - left. destruct Hm as (M1 & M2 & M3 & M4 & M5 & M6 & M7 & M8 & M9).
+    exists q'. split; [reflexivity|]. split; [exact M1|]. split; [exact M2|]. split; [exact M3|].
+    split; [exact M5|]. split; [exact M6|]. split; [exact M7|]. exact M9.
+  - right. destruct Hm as ((st & S1 & S2 & S3 & S4) & M2 & M3 & M4 & M5).
+    assert (Hext : ~ ext_status E st \/ st = ARES_SUCCESS).
+    { destruct (Z.eq_dec st ARES_SUCCESS) as [Hs|Hs]; [right; exact Hs|]. left.
+      intros [[att Ha]|[att Ha]]; destruct (Hatt att) as (_ & Hs1 & Hs2); congruence. }
+    assert (Hne : st <> ARES_SUCCESS).
+    { intros Hs. destruct (S3 Hs) as (Hn & Hc & _). destruct Hca as [Hca|Hca]; [congruence|].
+      rewrite Hca in Hc. discriminate Hc. }
+    destruct Hext as [Hext|Hext]; [|contradiction].
+    assert (Hst : st = ARES_ENOMEM /\ exists n, f n = false).
+    { destruct S2 as [[S2|[[S2 [att Ha]]|S2]] | [[S2 _] | [(Sn & Sc & Sc') | [(S2 & S2') | (S2 & _)]]]].
+      - exact S2.
+      - destruct (Hatt att) as (Hs0 & _). congruence.
+      - contradiction.
+      - contradiction.
+      - destruct Hca as [Hca|Hca]; [congruence|]. rewrite Hca in Sc. contradiction.
+      - contradiction.
+      - rewrite H20 in S2. contradiction. }
+    destruct Hst as [-> Haf].
+    split; [reflexivity|]. split; [exact S1|].
+    split; [destruct S4 as [S4|[_ S4]]; [exact S4 | contradiction]|].
+    split; [exact Haf|]. split; [exact M2|]. split; [exact M3|]. split; [exact M4|].
+    split; [|exact M5].
+    intros c Hc. apply C in Hc. destruct Hc as [Hc|[Hc|Hc]]; [left; exact Hc | right; exact Hc | contradiction].
+Qed.
+
+(* so without any refusal the request proceeds *)
+Corollary send_no_failure_proceeds f E ch qid h :
+  no_failure f -> env_all_ok E -> heap_ok h -> fresh_qid ch qid -> env_modelled E ch ->
+  exists r h' q', send_nolock f E ch qid h = Ok (r, h') /\ r_query r = Some q' /\ r_cbs r = [].
+Proof.
+  intros Hnf He Hok Hfr Hm.
+  destruct (send_single_failure f E ch qid h (or_introl Hnf) He Hok Hfr Hm) as (r & h' & Hrun & _ & Hc).
+  destruct Hc as [(q' & Hq & Hcb & _) | (_ & _ & _ & (n & Hn) & _)].
+  - exists r, h', q'. auto.
+  - rewrite Hnf in Hn. discriminate.
+Qed.
+
+(* the property's oracle (Alloc/Oracle.v) accepts the model's observation of a failed submission *)
+Corollary send_failure_judged f E ch qid h base_cb base_ret :
+  single_failure f -> env_all_ok E -> heap_ok h -> fresh_qid ch qid -> env_modelled E ch ->
+  exists r h', send_nolock f E ch qid h = Ok (r, h') /\
+    (r_query r = None ->
+     judge_tok (mkTok qid 1 (r_cbs r) (Some (r_status r)) base_cb base_ret true false false) = []).
+Proof.
+  intros Hs He Hok Hfr Hm.
+  destruct (send_single_failure f E ch qid h Hs He Hok Hfr Hm) as (r & h' & Hrun & _ & Hc).
+  exists r, h'. split; [exact Hrun|]. intros Hq.
+  destruct Hc as [(q' & Hq' & _) | (_ & Hcb & Hst & _)]; [congruence|].
+  rewrite Hcb, Hst. unfold judge_tok, judge_status, judge_ret. cbn [t_cb t_reqs t_id t_ret t_base_cb t_base_ret t_payload_same t_partial t_after_failure length flat_map].
+  destruct (zmem ARES_ENOMEM base_cb); destruct (opt_eqb (Some ARES_ENOMEM) base_ret); reflexivity.
+Qed.
+
+(* non-vacuity: a concrete channel with one connection and two outstanding requests; the
+   failure of the group G_qid (6th request of the submission) is unwound completely *)
+Example send_example :
+  let E := mkEnv 2 2 false false ARES_ENOTFOUND ARES_SUCCESS false true ARES_SUCCESS
+                 (fun _ => true) (fun _ => None) (fun _ => ARES_SUCCESS) (fun _ => ARES_SUCCESS) in
+  let c0 := mkConn 10 11 12 13 14 15 false [(7%Z, 16); (8%Z, 17)] 2 in
+  let ch := mkChan [7; 8]%Z [8; 7]%Z [7; 8]%Z [c0] 0 in
+  let h := mkHeap 30 [17; 16; 15; 14; 13; 12; 11; 10] in
+  heap_ok h /\ fresh_qid ch 9%Z /\ env_modelled E ch /\ env_all_ok E /\
+  send_nolock (fail_at 35) E ch 9%Z h
+    = Ok (mkRes ARES_ENOMEM [ARES_ENOMEM] None ch, mkHeap 36 [17; 16; 15; 14; 13; 12; 11; 10]) /\
+  (exists r h', send_nolock never_fail E ch 9%Z h = Ok (r, h') /\ r_cbs r = [] /\
+                ch_bytmo (r_chan r) = [9; 7; 8]%Z /\ length (h_live h') = 8 + 6 + 7).
+Proof.
+  cbv zeta. split; [|split; [|split; [|split; [|split]]]].
+  - split; [explicit_nodup | intros b Hb; simpl in *; lia].
+  - unfold fresh_qid; simpl. repeat split; intros [H|[H|[]]]; discriminate.
+  - split; simpl; [intros; discriminate | intros; split; discriminate].
+  - unfold env_all_ok; simpl. repeat split; auto; discriminate.
+  - vm_compute. reflexivity.
+  - eexists; eexists. vm_compute. repeat split; reflexivity.
+Qed.
